@@ -20,6 +20,15 @@
 //!     a real `Node` with two topic streams, acks through the public `StreamSubscription::ack`
 //!     (see `run_node`).
 //!
+//! `conc <rt c|m><mode j|s><store m|f> <T> ; a t h, a t h ... ; a t h, a t h ... ; <i i i ...|free>`
+//!     concurrent acks through ONE `Acked` (`Acked::new(store, topic T)`, one clone per call):
+//!     after the first list was acked sequentially, the calls of the second list are all in flight
+//!     at once — `join_all` (j) or one spawned task each (s), on a current-thread (c) or
+//!     multi-thread (m) runtime, over an in-memory (m) or file-backed default-pool (f) store — and
+//!     the label list decides which call passes its next schedule point (see `sched.rs`); `free`
+//!     runs them without any gate. Result: `[cursor] ; <letters> [cursor] ; ... | res res ... |
+//!     [final cursor]` (one entry per label; persisted cursor read with `CursorStore::get_cursor`).
+//!
 //! Authors are real `VerifyingKey`s, topics real `Topic`s, log ids real `LogId::from_topic(..)`
 //! hashes; the output maps them back to scenario indices.
 use std::collections::{BTreeMap, HashMap};
@@ -30,6 +39,8 @@ use p2panda_core::logs::LogHeights;
 use p2panda_core::{Cursor, SigningKey, Topic, VerifyingKey};
 use p2panda_store::cursors::CursorStore;
 use p2panda_store::{SqliteStore, SqliteStoreBuilder};
+
+mod sched;
 
 struct Keys {
     by_idx: Vec<VerifyingKey>,
@@ -190,6 +201,139 @@ async fn run_ack(keys: &mut Keys, body: &str) -> String {
     out.join(" ; ")
 }
 
+fn header_of(a: VerifyingKey, t: u64, h: u32) -> Header {
+    Header {
+        version: 1,
+        verifying_key: a,
+        signature: None,
+        payload_size: 0,
+        payload_hash: None,
+        seq_num: h,
+        backlink: None,
+        extensions: Extensions::from_topic(topic(t)),
+    }
+}
+
+fn triples(s: &str) -> Vec<(u64, u64, u32)> {
+    s.split(',')
+        .map(|p| h_common::nums(p))
+        .filter(|v| !v.is_empty())
+        .map(|v| (v[0], v[1], v[2] as u32))
+        .collect()
+}
+
+/// `conc`: see the module documentation and `sched.rs`.
+async fn run_conc(keys: &mut Keys, body: &str) -> String {
+    let mut parts = body.split(';');
+    let head: Vec<&str> = parts.next().unwrap_or("").split_whitespace().collect();
+    let flags: Vec<char> = head[0].chars().collect();
+    let (spawn, file) = (flags[1] == 's', flags[2] == 'f');
+    let t: u64 = head[1].parse().unwrap();
+    let init = triples(parts.next().unwrap_or(""));
+    let acks = triples(parts.next().unwrap_or(""));
+    let sched_txt = parts.next().unwrap_or("").trim().to_string();
+    let sched: Option<Vec<usize>> =
+        if sched_txt == "free" { None } else { Some(h_common::nums(&sched_txt).into_iter().map(|x| x as usize).collect()) };
+
+    let dir = std::env::temp_dir().join(format!(
+        "h_c07_{}_{}",
+        std::process::id(),
+        SALT.fetch_add(1, std::sync::atomic::Ordering::SeqCst)
+    ));
+    let store: SqliteStore = if file {
+        std::fs::create_dir_all(&dir).expect("temp dir");
+        SqliteStoreBuilder::new()
+            .database_url(&format!("sqlite://{}/db.sqlite", dir.display()))
+            .build()
+            .await
+            .expect("file store")
+    } else {
+        SqliteStoreBuilder::memory().build().await.expect("store")
+    };
+    let mut log_to_topic: HashMap<LogId, u64> = HashMap::new();
+    for t in 0..64u64 {
+        log_to_topic.insert(LogId::from_topic(topic(t)), t);
+    }
+    let log_idx = |l: &LogId| match log_to_topic.get(l) {
+        Some(t) => t.to_string(),
+        None => "?".to_string(),
+    };
+    let acked = Acked::new(store.clone(), topic(t));
+    for (a, lt, h) in &init {
+        let _ = acked.ack(&header_of(keys.get(*a), *lt, *h)).await;
+    }
+    for (a, _, _) in &acks {
+        keys.get(*a);
+    }
+    let name = acked.cursor_name().to_string();
+    let keys_ro: &Keys = keys;
+    let read = || async {
+        let raw: Option<Cursor<VerifyingKey, LogId>> =
+            CursorStore::<VerifyingKey, LogId>::get_cursor(&store, &name).await.expect("get_cursor");
+        format!("[{}]", show_state(keys_ro, &raw.map(|c| c.state().clone()).unwrap_or_default(), &log_idx))
+    };
+    let mut out: Vec<String> = vec![read().await];
+
+    let ctl = sched::Ctl::new(acks.len(), sched.is_some());
+    sched::set_current(Some(ctl.clone()));
+    let mut futs = Vec::new();
+    for (i, (a, lt, h)) in acks.iter().enumerate() {
+        let k = acked.clone();
+        let header = header_of(keys_ro.by_idx[*a as usize], *lt, *h);
+        futs.push(ctl.wrap(i, async move {
+            match k.ack(&header).await {
+                Ok(()) => "ok",
+                Err(AckedError::InvalidTopic(_)) => "InvalidTopic",
+                Err(AckedError::InvalidName(_, _)) => "InvalidName",
+                Err(AckedError::Store(_)) => "Store",
+            }
+            .to_string()
+        }));
+    }
+    let controller = async {
+        let mut obs: Vec<String> = Vec::new();
+        if let Some(labels) = &sched {
+            if !ctl.ready().await {
+                obs.push("NOTREADY".to_string());
+            }
+            for i in labels {
+                ctl.label(*i).await;
+                if ctl.stuck() {
+                    obs.push(format!("STUCK {}", ctl.letters()));
+                    break;
+                }
+                obs.push(format!("{} {}", ctl.letters(), read().await));
+            }
+        }
+        ctl.open();
+        if !ctl.all_done().await {
+            obs.push(format!("HUNG {}", ctl.letters()));
+        }
+        obs
+    };
+    let obs = if spawn {
+        let handles: Vec<_> = futs.into_iter().map(tokio::spawn).collect();
+        let obs = controller.await;
+        for h in handles {
+            let _ = tokio::time::timeout(std::time::Duration::from_secs(5), h).await;
+        }
+        obs
+    } else {
+        let (obs, _) = tokio::join!(controller, futures_util::future::join_all(futs));
+        obs
+    };
+    sched::set_current(None);
+    out.extend(obs);
+    let fin = read().await;
+    let res = ctl.results().join(" ");
+    drop(acked);
+    store.pool().close().await;
+    if file {
+        let _ = std::fs::remove_dir_all(&dir);
+    }
+    format!("{} | {} | {}", out.join(" ; "), res, fin)
+}
+
 /// `node n0 n1 ; i t j ; ...`: a real `Node` (explicit ack policy) with one topic stream per topic
 /// 0 and 1; `n_t` messages are published into topic t; then "subscription i acks the j-th
 /// operation of topic t" through the public `StreamSubscription::ack(hash)`. The cursors are read
@@ -265,6 +409,8 @@ static SALT: std::sync::atomic::AtomicU64 = std::sync::atomic::AtomicU64::new(0)
 
 fn main() {
     let rt = tokio::runtime::Builder::new_current_thread().enable_all().build().expect("runtime");
+    let mut rt_multi: Option<tokio::runtime::Runtime> = None;
+    sched::install_hooks();
     let mut keys = Keys::new();
     h_common::run_cases(|payload| {
         let (kind, body) = payload.split_once(' ').unwrap_or((payload, ""));
@@ -272,6 +418,13 @@ fn main() {
             "adv" => run_adv(&mut keys, body),
             "ack" => rt.block_on(run_ack(&mut keys, body)),
             "node" => rt.block_on(run_node(body)),
+            "conc" if body.starts_with('m') => {
+                let mt = rt_multi.get_or_insert_with(|| {
+                    tokio::runtime::Builder::new_multi_thread().worker_threads(2).enable_all().build().expect("runtime")
+                });
+                mt.block_on(run_conc(&mut keys, body))
+            }
+            "conc" => rt.block_on(run_conc(&mut keys, body)),
             _ => "BADKIND".to_string(),
         }
     });
